@@ -383,10 +383,14 @@ func famCorruption(x *lc) {
 		}
 		for _, z := range dz {
 			if z.field == f {
-				s, k := subj, "unbounded-alloc"
-				if z.site != "" {
-					s, k = z.site, "unchecked-length" // same signature as the panics the same field causes there
+				if z.site == "" {
+					// The heap profile did not name the allocating function this time (its records are published
+					// asynchronously by the runtime): the signature would not be stable, so this leaf is not judged.
+					// The same defect sites are reached through many other types and leaves.
+					x.c.Cover("corrupt-result", "unchecked-length-allocation-site-not-attributed")
+					continue
 				}
+				s, k := z.site, "unchecked-length" // same signature as the panics the same field causes there
 				msg := fmt.Sprintf("%s [%s] via %s: the %d-byte field at offset %d is an unchecked length: set to 2^19 the decoder allocated %d KiB for a %d-byte input (%.1f bytes per claimed element, i.e. %.0f GiB at 2^31); larger values are not executed",
 					x.e.name, x.e.vals[x.vi].label, d.name, w, f.off, z.alloc>>10, len(ref), float64(z.alloc)/probeLen, float64(z.alloc)/probeLen*2)
 				if z.confirmed != "" {
@@ -452,7 +456,9 @@ func (x *lc) failAlloc(family, subj string, r result, what string, n int) {
 		site, fate = r.FatalSite, fmt.Sprintf("THE PROCESS WAS KILLED (fatal error: out of memory, request of %d MiB)", r.Alloc>>20)
 	}
 	if site == "" || site == "unknown" {
-		x.c.Fail(sig(family, subj, "unbounded-alloc"), "%s [%s]: %s, a %d-byte input: %s", x.e.name, x.label(), what, n, fate)
+		// no stable signature without the allocating function (see famCorruption): not judged
+		x.c.Cover("corrupt-result", "unchecked-length-allocation-site-not-attributed")
+		x.c.Note("unattributed allocation: %s [%s]: %s, a %d-byte input: %s", x.e.name, x.label(), what, n, fate)
 		return
 	}
 	x.c.Fail(sig(family, site, "unchecked-length"), "%s [%s]: %s, a %d-byte input: %s in %s", x.e.name, x.label(), what, n, fate, site)
